@@ -18,6 +18,26 @@ def handle (O : Query → IO Bytes) : List String → IO (Option String)
           let ok ← verify O { t, s } y base (newDlogProof sid party action label)
           pure (some (if ok then "1" else "0"))
       | _, _, _, _, _, _, _, _ => pure none
+  -- `dlog prove2 <x1> <base1> <x2> <base2> <sid> <party> <action> <label> <tape>` : two proofs in a row on ONE transcript
+  --   → `<t1>:<s1>:<y1>:<t2>:<s2>:<y2>:<tape used>`
+  | ["prove2", x1, b1, x2, b2, sid, party, action, label, tape] => do
+      match parseHexNat? x1, hexToBytes? b1, parseHexNat? x2, hexToBytes? b2, hexToBytes? sid, party.toNat?, hexToBytes? action, hexToBytes? label, hexToBytes? tape with
+      | some x1, some b1, some x2, some b2, some sid, some party, some action, some label, some tape =>
+          let (p1, y1, rest, tr) ← proveAdv O x1 b1 (newDlogProof sid party action label) tape
+          let (p2, y2, rest, _) ← proveAdv O x2 b2 tr rest
+          pure (some s!"{bytesToHexW p1.t}:{natHex p1.s}:{bytesToHexW y1}:{bytesToHexW p2.t}:{natHex p2.s}:{bytesToHexW y2}:{tape.length - rest.length}")
+      | _, _, _, _, _, _, _, _, _ => pure none
+  -- `dlog verify2 <t1> <s1> <y1> <base1> <t2> <s2> <y2> <base2> <sid> <party> <action> <label>` → `<ok1><ok2>` on one transcript
+  | ["verify2", t1, s1, y1, b1, t2, s2, y2, b2, sid, party, action, label] => do
+      match hexToBytes? t1, parseHexNat? s1, hexToBytes? y1, hexToBytes? b1, hexToBytes? t2, parseHexNat? s2, hexToBytes? y2, hexToBytes? b2 with
+      | some t1, some s1, some y1, some b1, some t2, some s2, some y2, some b2 =>
+          match hexToBytes? sid, party.toNat?, hexToBytes? action, hexToBytes? label with
+          | some sid, some party, some action, some label =>
+              let (ok1, tr) ← verifyAdv O { t := t1, s := s1 } y1 b1 (newDlogProof sid party action label)
+              let (ok2, _) ← verifyAdv O { t := t2, s := s2 } y2 b2 tr
+              pure (some s!"{if ok1 then "1" else "0"}{if ok2 then "1" else "0"}")
+          | _, _, _, _ => pure none
+      | _, _, _, _, _, _, _, _ => pure none
   | ["chal", y, t, base, sid, party, action, label] => do
       match hexToBytes? y, hexToBytes? t, hexToBytes? base, hexToBytes? sid, party.toNat?, hexToBytes? action, hexToBytes? label with
       | some y, some t, some base, some sid, some party, some action, some label =>
